@@ -14,6 +14,7 @@ import TrimeshVerif.Props.C11
 import TrimeshVerif.Props.C12
 import TrimeshVerif.Props.C13
 import TrimeshVerif.Props.C14
+import TrimeshVerif.Props.C15
 import TrimeshVerif.Props.C16
 import TrimeshVerif.Props.C17
 import TrimeshVerif.Props.C18
